@@ -1,0 +1,19 @@
+// +build verif
+
+// Accessor used by the external verification harness (/verif, property C14).
+// Compiled only with -tags verif; nothing here changes behaviour.
+
+package staking
+
+import (
+	"github.com/youchainhq/go-youchain/core"
+	"github.com/youchainhq/go-youchain/core/state"
+	"github.com/youchainhq/go-youchain/core/types"
+	"github.com/youchainhq/go-youchain/params"
+)
+
+// VerifC14TakeEffect calls the unexported take-effect entry exactly as the
+// end-block hook does for every recorded pending staking transaction.
+func VerifC14TakeEffect(msg core.Message, st *state.StateDB, cfg *params.YouParams, header *types.Header, receipt *types.Receipt) {
+	takeEffectEntry(&messageContext{Msg: msg, State: st, Cfg: cfg, Header: header, Receipt: receipt})
+}
